@@ -397,6 +397,12 @@ EXPR_KINDS = {"assign", "postinc", "call", "calln", "and", "or", "not", "arr", "
 
 
 # ----------------------------------------------------------------------------- generator
+def ascii_only(s):
+    """the engine's output as it goes into the Coq term: generated programs print ASCII only, anything else (an
+    interpreter message that leaked into the output) is kept as '?' and shows up as a difference"""
+    return s.encode("ascii", "replace").decode("ascii")
+
+
 def lit(n):
     return ["lit", n]
 
@@ -1122,6 +1128,122 @@ def closure_programs():
     out.append(dict(base, main=[["expr", ["assign", "x", lit(2)]], ["expr", ["assign", "f", ["closure", 1]]],
                                 ["expr", ["assign", "w", ["closure", 5]]], ["expr", ["assign", "f", lit(0)]],
                                 tag("w=", call("w", lit(5)))]))
+    return out
+
+
+def counter_programs():
+    """the loop counter is written inside the body and the iteration then ends in every possible way: for loops with every
+    condition shape ($i < lit, $i <= lit, $i < $n, $i <= $n) x increment shape ($i++, $i = $i + 1, $i = $i + 2) x body write
+    (none, $i = $i + 2, $i = 4, $i++) x what follows the write (nothing, continue, break, `continue 2` out of a switch,
+    `continue 2` out of an inner loop of the same shape, continue inside a nested if); the same for while and do-while.
+    The counter is echoed before and after, and after the loop (a counter cached outside the variable would show)."""
+    out = []
+    i = var("i")
+    conds = {"lt-lit": ["bin", "Lt", i, lit(7)], "le-lit": ["bin", "Le", i, lit(6)], "lt-var": ["bin", "Lt", i, var("n")], "le-var": ["bin", "Le", i, var("m")]}
+    incs = {"pp": [["postinc", "i"]], "add1": [["assign", "i", ["bin", "Add", i, lit(1)]]], "add2": [["assign", "i", ["bin", "Add", i, lit(2)]]]}
+    writes = {"none": [], "add": [["expr", ["assign", "i", ["bin", "Add", i, lit(2)]]]], "set": [["expr", ["assign", "i", lit(4)]]], "pp": [["expr", ["postinc", "i"]]]}
+    def follow(kind, cond, inc):
+        if kind == "none":
+            return []
+        if kind == "continue":
+            return [["continue", 1]]
+        if kind == "break":
+            return [["break", 1]]
+        if kind == "continue2-switch":
+            return [["switch", lit(1), [["case", lit(1), [echo_("s"), ["continue", 2]]], ["default", [echo_("never")]]]]]
+        if kind == "continue2-loop":
+            return [["for", [["assign", "j", lit(0)]], ["bin", "Le", var("j"), lit(3)], [["postinc", "j"]],
+                     [tag("j", var("j")), ["if", ["bin", "Eq", var("j"), lit(1)], [["continue", 2]], [], []]]]]
+        if kind == "continue-in-if":
+            return [["if", ["bin", "Gt", i, lit(0)], [["if", ["bin", "Lt", i, lit(100)], [["continue", 1]], [], []]], [], []]]
+        raise ValueError(kind)
+    follows = ["none", "continue", "break", "continue2-switch", "continue2-loop", "continue-in-if"]
+    pro = [["expr", ["assign", "n", lit(7)]], ["expr", ["assign", "m", lit(6)]]]
+    for cn, cond in conds.items():
+        for inn, inc in incs.items():
+            for wn, wr in writes.items():
+                for fo in follows:
+                    if wn == "none" and fo == "none":
+                        continue
+                    body = [tag(" i", i), ["if", ["bin", "Eq", i, lit(1)], wr + [tag("w", i)] + follow(fo, cond, inc), [], []], tag(";", i)]
+                    out.append({"funcs": [], "main": pro + [["for", [["assign", "i", lit(0)]], cond, inc, body], tag(" end", i)]})
+    # while / do-while (the increment is an ordinary statement at the top of the body)
+    for kind in ("while", "dowhile"):
+        for wn, wr in writes.items():
+            for fo in follows:
+                body = [["expr", ["postinc", "i"]], tag(" i", i), ["if", ["bin", "Eq", i, lit(2)], wr + [tag("w", i)] + follow(fo, None, None), [], []], tag(";", i)]
+                loop = ["while", ["bin", "Le", i, lit(6)], body] if kind == "while" else ["dowhile", body, ["bin", "Le", i, lit(6)]]
+                out.append({"funcs": [], "main": pro + [["expr", ["assign", "i", lit(0)]], loop, tag(" end", i)]})
+    # the loop inside a function, counter also a parameter / written through a second statement form
+    f = {"name": "run", "params": [["i", None], ["k", [2]]],
+         "body": [["for", [], ["bin", "Le", i, lit(8)], [["postinc", "i"]],
+                   [tag(" i", i), ["if", ["bin", "Eq", i, var("k")], [["expr", ["assign", "i", ["bin", "Mul", i, lit(2)]]], ["continue", 1]], [], []], tag(";", i)]],
+                  ["return", i]]}
+    out.append({"funcs": [f], "main": [tag("r", ["call", "run", [lit(0)]]), tag(" r", ["call", "run", [lit(1), lit(3)]])]})
+    return out
+
+
+def tailcall_programs():
+    """self calls in tail position (`return f(...);`) that pass FEWER arguments than f has parameters: every activation
+    binds the omitted parameters to their defaults again, whatever the previous activation held there (an explicit
+    argument of the outer caller, a value assigned in the body).  The tail call sits directly in the body and inside
+    if / else / elseif / while / for / foreach / switch / try; positional and named arguments; parameters omitted at the
+    end and (named) in the middle; controls: all arguments passed, non-tail recursion, mutual recursion.  Each
+    activation echoes all its parameters."""
+    out = []
+    n, st, acc = var("n"), var("st"), var("acc")
+    show = [tag(" [n", n), tag(" st", st), tag(" acc", acc), echo_("]")]
+    base = ["if", ["bin", "Le", n, lit(0)], [["return", ["bin", "Add", ["bin", "Mul", acc, lit(100)], st]]], [], []]
+    dec = ["bin", "Sub", n, st]
+    calls = {
+        "omit-both": ["call", "f", [dec]],
+        "omit-last": ["call", "f", [dec, ["bin", "Add", st, lit(0)]]],
+        "all": ["call", "f", [dec, st, ["bin", "Add", acc, lit(1)]]],
+        "named-n": ["calln", "f", [], [["n", dec]]],
+        "named-skip-middle": ["calln", "f", [dec], [["acc", ["bin", "Add", acc, n]]]],
+        "named-swapped": ["calln", "f", [], [["acc", acc], ["n", dec]]],
+    }
+    def place(where, ret):
+        if where == "direct":
+            return [ret]
+        if where == "if":
+            return [["if", ["bin", "Gt", n, lit(0)], [ret], [], []], ["return", lit(-1)]]
+        if where == "else":
+            return [["if", ["bin", "Gt", n, lit(100)], [echo_("big")], [], [ret]], ["return", lit(-1)]]
+        if where == "elseif":
+            return [["if", ["bin", "Gt", n, lit(100)], [echo_("big")], [[["bin", "Gt", n, lit(0)], [ret]]], []], ["return", lit(-1)]]
+        if where == "while":
+            return [["while", ["bin", "Gt", n, lit(0)], [ret]], ["return", lit(-1)]]
+        if where == "for":
+            return [["for", [["assign", "i", lit(0)]], ["bin", "Lt", var("i"), lit(3)], [["postinc", "i"]], [["if", ["bin", "Eq", var("i"), lit(1)], [ret], [], []]]], ["return", lit(-1)]]
+        if where == "foreach":
+            return [["foreach", ["arr", [lit(1), lit(2)]], None, "v", [["if", ["bin", "Eq", var("v"), lit(2)], [ret], [], []]]], ["return", lit(-1)]]
+        if where == "switch":
+            return [["switch", ["bin", "Gt", n, lit(0)], [["case", lit(False), [echo_("no"), ["break", 1]]], ["default", [ret]]]], ["return", lit(-1)]]
+        if where == "try":
+            return [["try", [ret], [], [tag(" fin", n)]], ["return", lit(-1)]]
+        raise ValueError(where)
+    wheres = ["direct", "if", "else", "elseif", "while", "for", "foreach", "switch", "try"]
+    for cn, call in calls.items():
+        for wi, where in enumerate(wheres):
+            if cn not in ("omit-both", "named-skip-middle") and wi % 3 != 0:
+                continue
+            for reassign in (False, True):
+                pre = [["expr", ["assign", "acc", ["bin", "Add", acc, lit(5)]]], ["expr", ["assign", "st", ["bin", "Add", st, lit(0)]]]] if reassign else []
+                f = {"name": "f", "params": [["n", None], ["st", [1]], ["acc", [0]]],
+                     "body": show + [base] + pre + place(where, ["return", call])}
+                main = [tag("A", ["call", "f", [lit(7), lit(3)]]), tag(" B", ["call", "f", [lit(2)]]), tag(" C", ["call", "f", [lit(6), lit(2), lit(9)]]),
+                        tag(" D", ["calln", "f", [lit(4)], [["acc", lit(8)]]])]
+                out.append({"funcs": [f], "main": main})
+    # controls: the same shapes without a tail position, and mutual recursion
+    nt = {"name": "f", "params": [["n", None], ["st", [1]], ["acc", [0]]],
+          "body": show + [base, ["expr", ["assign", "r", ["call", "f", [dec]]]], ["return", ["bin", "Add", var("r"), lit(1)]]]}
+    nt2 = {"name": "f", "params": [["n", None], ["st", [1]], ["acc", [0]]],
+           "body": show + [base, ["return", ["bin", "Add", ["call", "f", [dec]], lit(1)]]]}
+    ga = {"name": "f", "params": [["n", None], ["st", [1]], ["acc", [0]]], "body": show + [base, ["return", ["call", "g", [dec]]]]}
+    gb = {"name": "g", "params": [["n", None], ["st", [2]], ["acc", [1]]], "body": [tag(" {g", n), tag(" st", st), echo_("}"), ["return", ["call", "f", [n]]]]}
+    for fs in ([nt], [nt2], [ga, gb]):
+        out.append({"funcs": fs, "main": [tag("A", ["call", "f", [lit(7), lit(3)]]), tag(" C", ["call", "f", [lit(6), lit(2), lit(9)]])]})
     return out
 
 
@@ -2179,6 +2301,10 @@ def main(ck):
             cases.append((pr, True, None, "callargs"))
         for pr in else_if_ladder_programs():
             cases.append((pr, True, None, "ladder"))
+        for pr in counter_programs():
+            cases.append((pr, True, None, "counter"))
+        for pr in tailcall_programs():
+            cases.append((pr, True, None, "tailcall"))
         for pr in static_branch_programs() + static_position_programs():
             cases.append((pr, True, None, "staticbranch"))
         for pr in index_programs():
@@ -2218,7 +2344,7 @@ def main(ck):
                           "impl_out": o, "clause": "implementation did not run the program (%s)" % oc})
             continue
         code = 0 if oc == "ok" else 1
-        terms.append("(%s, %s, %d%%nat, %s)" % (coq_prog(c[0]), coq_string(o["out"]), code, "true" if c[1] else "false"))
+        terms.append("(%s, %s, %d%%nat, %s)" % (coq_prog(c[0]), coq_string(ascii_only(o["out"])), code, "true" if c[1] else "false"))
         idxmap.append(i)
 
     bad = ck.eval_cases("cases", HEADER, terms, "check_case", shard=60)
@@ -2307,7 +2433,7 @@ def main(ck):
     ck.cov["max_loop_nesting"] = max([nesting_of(c[0], LOOPS) for c in cases] + [0])
     ck.cov["program_size_median"] = sizes[len(sizes) // 2] if sizes else 0
     ck.cov["program_size_max"] = sizes[-1] if sizes else 0
-    ck.cov["families"] = {f: sum(1 for c in cases if c[3] == f) for f in ("nest2", "alias", "escape", "recursion", "paramalias", "match", "closure", "callargs", "namedargs", "reentrant", "ladder", "staticbranch", "index", "fallthrough", "random", "dirty", "replay")}
+    ck.cov["families"] = {f: sum(1 for c in cases if c[3] == f) for f in ("nest2", "alias", "escape", "recursion", "paramalias", "match", "closure", "callargs", "namedargs", "reentrant", "ladder", "counter", "tailcall", "staticbranch", "index", "fallthrough", "random", "dirty", "replay")}
     ck.cov["impl_outcomes"] = outcome_hist
     ck.samples = [srcs[len(srcs) // 2], srcs[-1]] if srcs else []
     ck.finish(level="proof", evaluations=len(cases), distinct_nontrivial=nontriv,
